@@ -39,8 +39,17 @@ void set_origin(struct point *p) { *p = origin; global_counter++; }
 """
 
 
+CPU_SIG = 24          # SIGXCPU: the run used up its CPU-time limit (a load-independent time-out)
+
+
+def _assert_fn(err):
+    """function containing the failed assertion (glibc: `prog: file:line: signature: Assertion `..' failed.`)"""
+    m = re.search(r"^[^:\n]+: [^:\n]+:\d+: (.*?): Assertion `", err, re.M)
+    return eh.short_fn(m.group(1)) if m else ""
+
+
 def _kind(r):
-    if r.timeout:
+    if r.timeout or r.sig == CPU_SIG:
         return "timeout"
     m = re.search(r"ERROR: AddressSanitizer: ([\w-]+)", r.err)
     if m:
@@ -50,12 +59,13 @@ def _kind(r):
         t = re.sub(r"0x[0-9a-f]+|-?\d+", "N", m.group(1))
         t = re.sub(r" (for|of|to) type .*$| in type .*$|, which .*$", "", t)
         return "ubsan:" + t[:48].strip().replace(" ", "-").replace("'", "")
-    if r.abort_assert:
+    if "Assertion `" in r.err and r.sig == 6:
         return "assert"
+    m = re.search(r"terminate called after throwing an instance of '([^']*)'", r.err)
+    if m:
+        return "uncaught:" + m.group(1)
     if r.sig:
         return "SIG%d" % r.sig
-    if "terminate called" in r.err:
-        return "uncaught-exception"
     return "none"
 
 
@@ -71,16 +81,16 @@ def main():
             subst = [("CorruptLens = {0, 3, 6, 9, 13}", "CorruptLens = {0, 1, 2, 3, 4, 5, 6, 7, 8, 9, 10, 11, 12, 13}"),
                      ("CorruptSyms = {2, 5}", "CorruptSyms = {0, 2, 5}")] if c.thorough else []
             cfg = eh.make_cfg(c, "ElfHashCorrupt.cfg", "ElfHashCorrupt.cfg", fp, subst=subst)
-            mres.append(("corrupt", True, vf.tlc_check("ElfHash.tla", cfg, workers=4, timeout=1400, heap="4g", extra=("-noGenerateSpecTE",))))
+            mres.append(("corrupt", True, vf.tlc_check("ElfHash.tla", cfg, workers=4, timeout=1400, heap="4g")))
             if not (fp["FixedSysV"] and fp["FixedGnu"]):
                 def one(inv):
                     cfg = eh.make_cfg(c, "ElfHashCorrupt.cfg", "ElfHashCorrupt_%s.cfg" % inv, fp, invariants=[inv])
-                    return inv, vf.tlc_check("ElfHash.tla", cfg, workers=1, timeout=600, heap="1g", extra=("-noGenerateSpecTE",))
+                    return inv, vf.tlc_check("ElfHash.tla", cfg, workers=1, timeout=600, heap="1g")
                 for inv, r in vf.pmap(one, FAULTS, jobs=4):
                     mres.append((inv, None, r))
             else:
                 cfg = eh.make_cfg(c, "ElfHashCorrupt.cfg", "ElfHashCorruptStrict.cfg", fp, invariants=["LookupInBounds"], subst=subst)
-                mres.append(("strict", True, vf.tlc_check("ElfHash.tla", cfg, workers=4, timeout=1400, heap="4g", extra=("-noGenerateSpecTE",))))
+                mres.append(("strict", True, vf.tlc_check("ElfHash.tla", cfg, workers=4, timeout=1400, heap="4g")))
         except SystemExit as ex:
             merr.append(ex)
     th = threading.Thread(target=models)
@@ -132,22 +142,24 @@ def main():
         return [tools[tool], path, base]
 
     # ---- baseline: the tools must be clean on the uncorrupted files (otherwise nothing can be attributed to a corruption)
-    def runit(job, timeout):
+    # time-outs are CPU-time limits (prlimit --cpu, SIGXCPU): independent of the load of the machine; the wall-clock
+    # limit of vf.run is only a backstop for a run that sleeps
+    def runit(job, cpu):
         sc = os.path.join(W, "scratch")
         os.makedirs(sc, exist_ok=True)
-        return vf.run(job["cmd"], env=vf.henv(sc), timeout=timeout)
+        return vf.run(["prlimit", "--cpu=%d:%d" % (cpu, cpu + 5), "--"] + job["cmd"], env=vf.henv(sc), timeout=max(600, 40 * cpu))
     basejobs = []
     for b in bases:
         for t in ("abisym", "abidw", "abidiff"):
             basejobs.append({"base": b, "tool": t, "cmd": cmd(t, b["path"], b["path"], b["names"][0])})
-    bres = vf.pmap(lambda j: runit(j, 300), basejobs)
+    bres = vf.pmap(lambda j: runit(j, 120), basejobs)
     usable = set()
     for j, r in zip(basejobs, bres):
         if _kind(r) != "none":
             c.discard("tool not clean on the uncorrupted base (%s on %s: %s)" % (j["tool"], j["base"]["desc"], _kind(r)))
         else:
             usable.add((j["base"]["tag"], j["tool"]))
-    limit = min(max(10.0, 50 * statistics.median([r.wall for r in bres])), 30.0)
+    limit = 60 if c.thorough else 30        # CPU seconds; an ASan run on these inputs takes about 1 s of CPU (>= 25x / 50x)
 
     # ---- corruptions -> jobs
     TABLE = ("hash", "gnu")
@@ -160,7 +172,7 @@ def main():
             fam = elfpatch.group(cls)
             table = fam in TABLE and ".sh_" not in cls
             if b["kind"] == "dwarf":
-                if not (fam.startswith("debug") or fam in ("symtab", "strtab", "truncated", "ehdr") or cls.startswith(("flip.any", "flip.symtab", "flip.strtab", "flip.shdrs"))):
+                if not (fam.startswith("debug") or fam in ("symtab", "strtab", "truncated", "ehdr", "garbage") or cls.startswith(("flip.any", "flip.symtab", "flip.strtab", "flip.shdrs"))):
                     continue
                 which = ["abidw", "abidiff"]
             elif b["tag"] in ("C", "E") and not (fam in TABLE):
@@ -193,20 +205,20 @@ def main():
         k = _kind(r)
         fn, foreign = eh.classify_stack(r.err) if k.startswith(("asan", "ubsan")) else ("", False)
         if k == "assert":
-            fn = r.abort_assert
-        ev = {"e": "Run", "tool": j["tool"], "corruption": j["cls"], "ret": "timeout" if r.timeout else ("signal" if r.sig else "exit"),
-              "kind": k, "fn": fn, "san": r.san, "top": r.top, "assert": r.abort_assert, "foreign": bool(foreign), "status": r.exit,
+            fn = _assert_fn(r.err)
+        ev = {"e": "Run", "tool": j["tool"], "corruption": j["cls"], "ret": "timeout" if k == "timeout" else ("signal" if r.sig else "exit"),
+              "kind": k, "fn": fn, "san": r.san, "top": r.top, "assert": _assert_fn(r.err) if k == "assert" else "", "foreign": bool(foreign), "status": r.exit,
               "base": j["base"]["tag"], "detail": j["detail"]}
         return ev
     events = [event(j, r) for j, r in zip(jobs, res)]
-    # confirming re-run of time-outs (one per class key, side by side), with twice the limit
+    # a CPU-time limit is deterministic; it is nevertheless confirmed once per class key with twice the limit
     seen, again = set(), []
     for i, ev in enumerate(events):
         if ev["kind"] == "timeout" and (ev["corruption"], ev["tool"]) not in seen:
             seen.add((ev["corruption"], ev["tool"]))
             again.append(i)
     for i, r2 in zip(again, vf.pmap(lambda i: runit(jobs[i], 2 * limit), again)):
-        if not r2.timeout:
+        if _kind(r2) != "timeout":
             res[i] = r2
             events[i] = event(jobs[i], r2)
             c.discard("time-out not confirmed by the re-run")
@@ -269,7 +281,7 @@ def main():
         byk[e["kind"]] = byk.get(e["kind"], 0) + 1
     c.cov["runs_by_termination"] = byk
     c.cov["bases"] = [b["desc"] for b in bases]
-    c.cov["timeout_limit_s"] = round(limit, 1)
+    c.cov["cpu_time_limit_s"] = limit
     c.cov["rule"] = ("model: every content of a hash section the walks can read (on demand, values 0..4); campaign: %d corruption classes "
                      "(render/elfpatch.py) of %d base binaries x the readers that parse the corrupted structure (quick: one reader per class, "
                      "rotating with the seed), ASan+UBSan build; non-trivial = distinct (base, class, tool)" % (len(nclasses), len(bases)))
@@ -277,7 +289,7 @@ def main():
         c.sample(e)
     c.assumptions += ["ASan/UBSan observe invalid memory accesses and undefined behaviour; the frame classifier (checks/_elfhash.classify_stack) "
                       "decides foreign (libelf/libdw/libxml2) by the module of the innermost non-runtime frame",
-                      "a corruption class, not an offset, identifies a finding; time-outs are confirmed by a re-run with twice the limit"]
+                      "a corruption class, not an offset, identifies a finding; a time-out is a CPU-time limit (prlimit) confirmed by a re-run with twice the limit"]
     c.finish()
 
 
